@@ -60,6 +60,21 @@ CHECKS = {
         design_ref="DESIGN.md 4 C02",
         note="Trusted: TLC/SANY/Json module, numpy, float32 exactness on |v|<2^24. Exhaustive only within the listed extents (<=4-5), k<=3.",
     ),
+    "C19": dict(
+        engine="tlc+replay+trace",
+        technique="TLA+ stopping machine (operational rule vs declarative reading) model-checked over all bounded loss histories; every TLC history replayed through TrainLoss/ValLoss/EpochStop in four scalar representations; real ml.train runs recorded and validated by a TLC trace spec of the training loop",
+        category="model_checking",
+        text=("TLC checks, for every loss history over a 4-letter ordered alphabet up to the length bound and every "
+              "(patience, min_delta), that the one-step-per-epoch rule agrees with the declarative reading (stop at the "
+              "first epoch with more than `patience` consecutive non-improvements, never earlier, best model = last "
+              "improving epoch), EpochStop stops at exactly `epochs`; MC_TrainLoop checks the loop design (LoopInv) and "
+              "termination under fairness on a non-improving history. Binding A replays every maximal history into the "
+              "real classes with float / numpy.float32 / numpy.float64 / 0-d jax losses comparing stop() and best_model "
+              "identity after every call; binding B validates recorded traces of real ml.train runs (scripted losses) "
+              "against TrainLoop.tla, naming the violated guard."),
+        design_ref="DESIGN.md 4 C19",
+        note="Trusted: TLC/SANY/Json; the scripted-loss model (SGD lr=1 step counter). Histories bounded (length<=5/7, patience<=2/3).",
+    ),
 }
 
 PENDING_REASON = "check not built yet in this round (planned in DESIGN.md 4); not claimed until its machinery exists"
